@@ -391,7 +391,7 @@ def d_row0_guarded(f, s, R, db):
         return None
     rels = G.relations(f, R, s['block'])
     for r in rels:
-        if r[0] == 'ne' and norm(r[2]) == ('k', 0) and 'rows' in X.canon(r[1]) and X.canon(recv) in X.canon(r[1]):
+        if r[0] == 'ne' and norm(r[2]) == ('k', 0) and common.is_call_on(r[1], '::rows', recv):
             return 'guarded: rows() != 0 dominates matrix()[0]'
     return None
 
@@ -402,7 +402,7 @@ def d_data_get_summary(f, s, R, db):
     if s['kind'] == 'call:generic-index' and f.path.endswith('StripedScores::__getitem__'):
         rels = G.relations(f, R, s['block'])
         idx = norm(R.operand(s['term']['args'][1]))
-        if G.holds(rels, 'lt', lambda e: norm(e) == idx, lambda e: 'max_index' in X.canon(e)) and G.holds(rels, 'ge', lambda e: norm(e) == idx, lambda e: norm(e) == ('k', 0)):
+        if G.holds(rels, 'lt', lambda e: norm(e) == idx, lambda e: common.is_call_to(e, 'StripedScores::max_index')) and G.holds(rels, 'ge', lambda e: norm(e) == idx, lambda e: norm(e) == ('k', 0)):
             return 'guarded: 0 <= i < max_index <= rows*columns dominates scores[i]'
     return None
 
@@ -415,7 +415,7 @@ def d_row_guard(f, s, R, db):
     recv, idx = norm(R.operand(t['args'][0])), norm(R.operand(t['args'][1]))
     rels = G.relations(f, R, s['block'])
     for r in rels:
-        if r[0] == 'lt' and norm(r[1]) == idx and 'rows' in X.canon(r[2]) and X.canon(recv) in X.canon(r[2]):
+        if r[0] == 'lt' and norm(r[1]) == idx and common.is_call_on(r[2], '::rows', recv):
             return 'guarded: i < matrix.rows() dominates matrix[i]'
     return None
 
@@ -428,7 +428,7 @@ def d_first_char(f, s, R, db):
             rels = G.relations(f, R, s['block'])
             src = X.canon(a[1][2][0])
             for r in rels:
-                if r[0] == 'eq' and norm(r[2]) == ('k', 1) and 'len' in X.canon(r[1]) and src in X.canon(r[1]):
+                if r[0] == 'eq' and norm(r[2]) == ('k', 1) and common.is_len_of(r[1]) and src == X.canon(norm(r[1])[2][0] if norm(r[1])[0] == 'call' else norm(r[1])[1]):
                     return 'guarded: key.len() == 1 dominates key.chars().next().unwrap()'
     return None
 
@@ -438,7 +438,7 @@ def d_bounded_copy(f, s, R, db):
         return None
     t = s['term']
     rels = G.relations(f, R, s['block'])
-    le = [r for r in rels if r[0] in ('le',) and 'len' in X.canon(r[1]) and 'len' in X.canon(r[2])]
+    le = [r for r in rels if r[0] in ('le',) and common.is_len_of(r[1]) and common.is_len_of(r[2])]
     if s['kind'] == 'call:slice-index' and le:
         return 'guarded: b.len() <= buf.len() dominates buf[..b.len()]'
     if s['kind'] == 'call:copy_from_slice':
